@@ -26,7 +26,7 @@ from oracles import deriv
 from simfw import boot
 from simfw.choices import Choices
 from simfw.run import Run, norm
-from sims.common import fresh_spec, prewarm
+from sims.common import fresh_spec, in_child as _in_child, prewarm
 
 NAME = "isolationsim"
 
@@ -40,35 +40,6 @@ META = {
 }
 
 OBSERVABLES = ["nodes.MAX_REPETITIONS", "logger.level", "io.env_key"]
-
-
-def _in_child(fn, timeout=60.0):
-    """Run fn() in a forked child; returns its (picklable) result or ('child-failed', reason)."""
-    r, w = os.pipe()
-    pid = os.fork()
-    if pid == 0:
-        try:
-            os.close(r)
-            try:
-                res = ("ok", fn())
-            except BaseException as e:  # noqa
-                import traceback
-
-                res = ("exc", "%s: %s\n%s" % (type(e).__name__, e, traceback.format_exc()[-1200:]))
-            data = pickle.dumps(res)
-            with os.fdopen(w, "wb") as f:
-                f.write(struct.pack("<I", len(data)))
-                f.write(data)
-        finally:
-            os._exit(0)
-    os.close(w)
-    with os.fdopen(r, "rb") as f:
-        hdr = f.read(4)
-        data = f.read(struct.unpack("<I", hdr)[0]) if len(hdr) == 4 else b""
-    os.waitpid(pid, 0)
-    if not data:
-        return ("exc", "child died")
-    return pickle.loads(data)
 
 
 def _use_b(bf, b_seed, n_sol, gens, pop, words):
